@@ -1,16 +1,114 @@
-import DicomModel.Lemmas.RefWriter
+import DicomModel.Lemmas.RefBuild
 /-
-C02 — reading and rewriting a canonical stream reproduces it byte for byte.
-(first version: header layer only; the theorems are being added)
+C02 — Reading and rewriting a canonical stream reproduces it byte for byte.
+
+Objects:
+* `Ref.encElems ts t` (Model/RefEncode.lean) — the *independent reference encoder*, a structural recursion
+  written from PS3.5 §7.1 / §7.5 / §A.4 / §6.2 with its own VR code table, 16-bit-length VR list, header
+  and value layouts. It shares with the models of dicom-rs only the tree types, the integer codecs
+  `enc16/enc32/enc64` and the constants `undefinedLen`, `Tag.pixelData`.
+* `Ref.canonical ts dict t` — decidable: ascending unique tags at every level, even value lengths equal to
+  the value field length, every defined sequence / item length equal to the true length of its content,
+  values in the form and range of their VR, default repertoire, Implicit VR: the VR is the dictionary's.
+* the models of dicom-rs (builder codec1): `writeDataset` (`DataSetWriter` token state machine over the
+  stateful encoder, strategies `noChange` / `setUndefined`), `readTokens` (`DataSetReader` state machine
+  over the stateful decoder), `buildObject`, `readDataset` = `InMemDicomObject::read_dataset_with_ts`.
+
+All theorems hold for trees of ARBITRARY nesting depth, all 34 VRs, the three uncompressed transfer
+syntaxes, explicit and undefined sequence / item lengths in any mixture, encapsulated pixel data with
+empty or non-empty offset table and zero-length fragments (mutual induction on the tree; no bound).
 -/
 namespace Dicom.C02
 open Dicom.Ref
 
-/-- the element header written by each of the three encoders of dicom-rs is the PS3.5 layout of the
-independent reference encoder -/
+/-- a canonical encoded data set: the reference encoding of a canonical tree -/
+def Canonical (ts : Syntax) (dict : Tag → Option VR) (bs : Bytes) : Prop :=
+  ∃ t, canonical ts dict t = true ∧ bs = encElems ts t
+
+/-- a canonical encoded data set in which every sequence and item has undefined length -/
+def CanonicalUndefined (ts : Syntax) (dict : Tag → Option VR) (bs : Bytes) : Prop :=
+  ∃ t, canonical ts dict t = true ∧ allUndefElems t = true ∧ bs = encElems ts t
+
+theorem canonical_parts {ts : Syntax} {dict : Tag → Option VR} {t : Elems} (h : canonical ts dict t = true) :
+    dictOk ts dict = true ∧ canonElems ts dict t = true ∧ sortedElems t = true := by
+  simp only [canonical, Bool.and_eq_true] at h
+  exact ⟨h.1.1, h.1.2, h.2⟩
+
+/-- **On canonical trees the writer model with the no-change strategy equals the reference encoder.** -/
+theorem writer_eq_ref (ts : Syntax) (dict : Tag → Option VR) (t : Elems) (h : canonical ts dict t = true) :
+    writeDataset ts .noChange t = .ok (encElems ts t) :=
+  writeDataset_ref ts dict .noChange t (canonical_parts h).2.1 (Or.inl rfl)
+
+/-- … and so does the default strategy (set-undefined) when every sequence and item length is undefined. -/
+theorem writer_eq_ref_default (ts : Syntax) (dict : Tag → Option VR) (t : Elems) (h : canonical ts dict t = true)
+    (hu : allUndefElems t = true) :
+    writeDataset ts .setUndefined t = .ok (encElems ts t) :=
+  writeDataset_ref ts dict .setUndefined t (canonical_parts h).2.1 (Or.inr hu)
+
+/-- **The reader model on the reference encoding of a canonical tree yields exactly the tree's tokens —
+with its recorded lengths and values — and ends without error** (the fuel is the one `readDataset` uses). -/
+theorem reader_ref (ts : Syntax) (dict : Tag → Option VR) (t : Elems) (h : canonical ts dict t = true) :
+    readTokens ((encElems ts t).length + 2) (RState.new ts dict (encElems ts t)) = (t.tokens, none) := by
+  obtain ⟨hd, hc, _⟩ := canonical_parts h
+  have := tokens_le_elems ts t
+  exact readTokens_ref ts dict t hd hc _ (by omega)
+
+/-- reading the reference encoding gives the tree back (`read_dataset_with_ts`: reader + `build_object`) -/
+theorem read_ref (ts : Syntax) (dict : Tag → Option VR) (t : Elems) (h : canonical ts dict t = true) :
+    readDataset ts dict (encElems ts t) = .ok t := by
+  obtain ⟨_, hc, hs⟩ := canonical_parts h
+  unfold readDataset
+  rw [reader_ref ts dict t h]
+  simp only
+  rw [buildObject_ref ts dict t hc hs _ (Nat.lt_succ_self _)]
+  simp [elemsOfList_toList]
+
+/-- **Reading a canonical stream and writing it back keeping the recorded lengths reproduces it byte
+for byte.** -/
+theorem rewrite_identity (ts : Syntax) (dict : Tag → Option VR) (bs : Bytes) (h : Canonical ts dict bs) :
+    ∃ t, readDataset ts dict bs = .ok t ∧ writeDataset ts .noChange t = .ok bs := by
+  obtain ⟨t, hc, rfl⟩ := h
+  exact ⟨t, read_ref ts dict t hc, writer_eq_ref ts dict t hc⟩
+
+/-- **When every sequence and item has undefined length, the default writer settings reproduce it too.** -/
+theorem rewrite_identity_default (ts : Syntax) (dict : Tag → Option VR) (bs : Bytes)
+    (h : CanonicalUndefined ts dict bs) :
+    ∃ t, readDataset ts dict bs = .ok t ∧ writeDataset ts .setUndefined t = .ok bs := by
+  obtain ⟨t, hc, hu, rfl⟩ := h
+  exact ⟨t, read_ref ts dict t hc, writer_eq_ref_default ts dict t hc hu⟩
+
+/-- the header written by each of the three encoders of dicom-rs is the PS3.5 layout of the reference
+encoder (no length truncation: a 16-bit-length VR needs `len < 65536`) -/
 theorem header_eq_ref (ts : Syntax) (t : Tag) (vr : VR) (len : Nat)
     (hs : ts.explicit = true → short16 vr = true → len < 65536) :
     encodeHeader ts ⟨t, vr, len⟩ = .ok (header ts t vr len, (header ts t vr len).length) :=
   encodeHeader_ref ts t vr len hs
+
+/-- every length the reference encoder produces for a canonical tree is even -/
+theorem ref_length_even (ts : Syntax) (dict : Tag → Option VR) (t : Elems) (h : canonical ts dict t = true) :
+    (encElems ts t).length % 2 = 0 :=
+  even_elems ts dict t (canonical_parts h).2.1
+
+/-! ### the hypotheses are satisfiable: nested explicit lengths, pixel data, all three syntaxes -/
+
+/-- (0008,0060) CS "MR" inside an explicit-length item of an explicit-length sequence, an empty
+undefined-length sequence, encapsulated pixel data with an empty offset table, a zero-length fragment and a
+2-byte fragment -/
+def sample (ts : Syntax) : Elems := fixElems ts
+  (.cons (.seq ⟨0x0008, 0x1140⟩ 0 (.cons 0 (.cons (.prim ⟨0x0008, 0x0060⟩ .CS 0 (.strs [[0x4D, 0x52]])) .nil)
+      (.cons undefinedLen .nil .nil)))
+   (.cons (.seq ⟨0x0040, 0x0275⟩ undefinedLen .nil)
+   (.cons (.pix [] [[], [1, 2]]) .nil)))
+
+def sampleDict : Tag → Option VR := fun t =>
+  if t = ⟨0x0008, 0x1140⟩ ∨ t = ⟨0x0040, 0x0275⟩ then some .SQ else if t = ⟨0x0008, 0x0060⟩ then some .CS else none
+
+example : canonical .explicitLE sampleDict (sample .explicitLE) = true := by decide +kernel
+example : canonical .explicitBE sampleDict (sample .explicitBE) = true := by decide +kernel
+example : canonical .implicitLE sampleDict (sample .implicitLE) = true := by decide +kernel
+
+/-- a value of odd length is not canonical (the premise "even value lengths" is not vacuous) -/
+example : canonical .explicitLE sampleDict
+    (.cons (.prim ⟨0x0008, 0x0060⟩ .CS 3 (.strs [[0x4D, 0x52, 0x20]])) .nil) = false := by decide +kernel
 
 end Dicom.C02
